@@ -339,7 +339,7 @@ def main(chk):
             chk.machinery("binding self-test: corrupted trace %d was accepted by TracePool" % k)
         selftest += 1 if rej else 0
     # vacuity of the schedule population
-    if not tot.get("waits") or not tot.get("timeouts") or not tot.get("conn_errors"):
+    if not chk.violations and (not tot.get("waits") or not tot.get("timeouts") or not tot.get("conn_errors")):
         chk.machinery("vacuous schedules: waits=%s timeouts=%s connect errors=%s" % (tot.get("waits"), tot.get("timeouts"), tot.get("conn_errors")))
     contended = sum(1 for t in traces if any(e["o"]["w"] or e["res"] == "TimeoutError" for e in t["ev"]))
     sample = []
